@@ -104,13 +104,16 @@ func verifH_C08_log() {
 		verifAssert(len(a.packets) == before+1, "an event broadcast without ack is logged")
 		g := verifGhost{id: a.packets[len(a.packets)-1].ID, addressed: verifAddressed(kind, inR1), at: time.Now()}
 		ghost = append(ghost, g)
-		if i < d && g.addressed {
+		// the client's offset is the last packet it RECEIVED: any addressed packet before the disconnect was noticed
+		// (the link may have been dead for a while: later packets, although emitted before the disconnect, are missed)
+		if i < d && g.addressed && (offsetIdx < 0 || verifAnyBool()) {
 			offset, offsetIdx = g.id, i
 		}
 		if i+1 == d {
 			if offsetIdx < 0 {
 				return // the client received nothing before it disconnected: it has no offset to present (not modelled)
 			}
+			verifAdvance(verifSteps()) // the server notices the disconnect some time after the last packet went out
 			a.PersistSession(&SessionToPersist{SID: "sid1", PID: "pid1", Rooms: sessRooms})
 			disconnectedAt = time.Now()
 			c1 := verifChoose(0, 1)
@@ -150,6 +153,7 @@ func verifH_C08_log() {
 		}
 		verifAssert(!fresh, "a session and log entries younger than the window stay recoverable whatever the clean-up passes")
 	}
+	verifAssert(verifHeldLocks() == 0, "the adapter's mutex is released whatever the outcome")
 	verifReach("end")
 }
 
@@ -182,5 +186,10 @@ func verifH_C08_unknown() {
 		a.Broadcast(&parser.PacketHeader{Type: parser.PacketTypeAck, Namespace: "/"}, []any{"ev"}, verifOpts(0))
 		verifAssert(len(a.packets) == n, "only events without acknowledgement are logged")
 	}
+	verifAssert(verifHeldLocks() == 0, "the adapter's mutex is released whatever the outcome")
+	// the adapter stays usable
+	n := len(a.packets)
+	a.Broadcast(hdr, []any{"ev"}, verifOpts(0))
+	verifAssert(len(a.packets) == n+1, "the adapter keeps working after a refused restore")
 	verifReach("end")
 }
